@@ -133,7 +133,9 @@ impl Monitor for C06 {
                 },
             }
         } else {
-            corpus::draw(rng, cfg, 10)
+            // now and then a large document (sections / clauses / lines with more than 4096 entries)
+            let size = if rng.chance(1, 300) { 2500 } else { 10 };
+            corpus::draw(rng, cfg, size)
         };
         let bytes = &input.bytes;
         let data = Rc::new(bytes.clone());
